@@ -14,7 +14,9 @@ SMALL = ["Byte", "Int8ub", "Int8ul", "Int16ub", "Int16ul", "Int24ub", "Int32ul",
 
 
 class Gen:
-    def __init__(self, rng, maxdepth=3, arity=4, fragment="full", reparse_safe=False):
+    def __init__(self, rng, maxdepth=3, arity=4, fragment="full", reparse_safe=False, strict=False):
+        # strict (C06b, C18): no greedy, optional or look-ahead parts anywhere - every strict prefix of an encoding is incomplete
+        self.strict = strict
         # reparse_safe (C02): terminator-delimited regions only around data that cannot contain the terminator once parsed
         self.reparse_safe = reparse_safe
         self.rng = rng
@@ -67,7 +69,11 @@ class Gen:
 
     def leaf(self, tail):
         r = self.rng
+        if self.strict:
+            tail = False
         c = r.random()
+        if tail and c > 0.975:
+            return ["name", "Terminated"]
         if c < 0.30:
             return self.int_leaf()
         if c < 0.38:
@@ -114,6 +120,8 @@ class Gen:
         r = self.rng
         if depth is None:
             depth = self.maxdepth
+        if self.strict:
+            tail = False
         if depth <= 0 or r.random() < 0.18:
             return self.leaf(tail)
         c = r.random()
@@ -167,7 +175,7 @@ class Gen:
         if c < 0.86 and tail and self.fragment == "full":
             return ["ProcessXor", r.choice([0, 1, 0x5a, 255, tag(b"\x01\x02"), tag(b"\x00")]), self.recipe(depth - 1, True)]
         if c < 0.90:
-            return ["Optional", self.optional_inner()] if tail else ["Hex", self.int_leaf()]
+            return ["Optional", self.optional_inner()] if (tail and not self.strict) else ["Hex", self.int_leaf()]
         if c < 0.94:
             return ["Renamed", "rn", self.recipe(depth - 1, tail), "docs" if r.random() < 0.5 else None]
         if c < 0.97:
@@ -360,7 +368,7 @@ def genval(r, rng, sc, name=None):
     ir = int_range(r, sc) if k in ("name", "FormatField", "BytesInteger", "BitsInteger") else None
     if ir is not None:
         lo, hi = ir
-        if name and name[0] in "nt" and name[1:].isdigit():
+        if name and name[0] in "nt" and (len(name) == 1 or name[1:].isdigit()):
             return rng.choice([0, 1, 2, 3, 4, 2, 1])
         return boundary_ints(lo, hi, rng)
     if k == "name":
@@ -377,7 +385,10 @@ def genval(r, rng, sc, name=None):
             return gen_float(M.FMT_FLOAT[a[1]], rng)
         return rng.random() < 0.5
     if k == "Bytes":
-        return bytes(rng.randrange(256) for _ in range(M.ev(a[0], sc)))
+        n = M.ev(a[0], sc)
+        if not isinstance(n, int) or n > 4096:
+            raise M.ModelGap("value generation: length")
+        return bytes(rng.randrange(256) for _ in range(n))
     if k in ("PaddedString", "PascalString", "CString", "GreedyString"):
         enc = a[1] if k in ("PaddedString", "PascalString") else a[0]
         s = rng.choice(STRINGS)
@@ -443,6 +454,8 @@ def genval(r, rng, sc, name=None):
             c = None
         if not isinstance(c, int):
             c = rng.randint(0, 3)
+        if c > 64:
+            raise M.ModelGap("value generation: count %d too large" % c)
         return [genval(a[1], rng, sc) for _ in range(max(0, c))]
     if k in ("PrefixedArray", "GreedyRange"):
         el = a[1] if k == "PrefixedArray" else a[0]
